@@ -60,3 +60,27 @@ Theorem C01_after_unavailable_refuted :
   exists i, prop_C01 i (run_C01 i) = false /\ kf_C01 i = 1.
 Proof. exact (ex_intro _ avail_in avail_refuted). Qed.
 Print Assumptions C01_after_unavailable_refuted.
+
+(* The same through the backend list of a freshly initialised BalanceRR (any configured weights, including
+   weights <= 0 which are never eligible; pairwise distinct backends) and the executable predicate the harness
+   evaluates on the implementation: segment_ok says every pick is an eligible backend and EVERY window of
+   A = sum of the eligible weights consecutive picks contains each eligible backend exactly weight-many times
+   (all picks are the error -1 when nothing is eligible). *)
+Theorem C01_fresh_run_exact : forall conf k, NoDup (map fst conf) ->
+  segment_ok (cfg_elig (cfg_init conf)) (fst (picks_by swrr_pick (init conf) k)) = true.
+Proof. exact fresh_run_segment_ok. Qed.
+Print Assumptions C01_fresh_run_exact.
+
+(* wire level: input = configuration + one run of k <= 5000 Balance calls; such inputs are outside the
+   known-finding class (kf_C01 = 0: no operation that could carry credits over). *)
+Theorem C01_prop_of_model_fresh : forall conf k,
+  NoDup (map fst conf) -> Z.of_nat k <= max_k ->
+  prop_C01 (VL [VL (map (fun e => VL [VZ (fst e); VZ (snd e)]) conf); VL [VL [VZ 0; VZ (Z.of_nat k)]]])
+           (run_C01 (VL [VL (map (fun e => VL [VZ (fst e); VZ (snd e)]) conf); VL [VL [VZ 0; VZ (Z.of_nat k)]]])) = true.
+Proof. exact prop_of_model_fresh. Qed.
+Print Assumptions C01_prop_of_model_fresh.
+
+(* Non-vacuity: the example of the source comment, weights 5,1,1: a a b a c a a, repeated. *)
+Example C01_example :
+  fst (picks_by swrr_pick (init [(0,5);(1,1);(2,1)]) 14) = [0;0;1;0;2;0;0; 0;0;1;0;2;0;0].
+Proof. exact eq_refl. Qed.
